@@ -386,7 +386,7 @@ func C14() *check.Property {
 			"including waits in upstream slots that run inside the closure) and accepts it only when the waited-on object is released by something registered on the destination itself. CTX-WATCH checks the context case of the context-aware sources.",
 		NotDecided:  "that a cancelled upstream actually stops promptly (depends on the source); waits bounded by timers are accepted without checking their duration.",
 		Assumptions: []string{"a Subscription is only closed by its terminal notification, its own Unsubscribe or the Unsubscribe of a subscription it was added to"},
-		Floors:      map[string]int{"blocking_sites_in_subscribe": 6, "acquisitions": 150},
+		Floors:      map[string]int{"blocking_sites_in_subscribe": 6, "acquisitions": 150, "slice_fields_scanned": 10},
 		Controls:    map[string]string{"zz_verif_controls_c14.go": roControl(controlsC14 + controlsPositionStable), "zz_verif_controls_c12.go": roControl(controlsC12), "zz_verif_controls_c05.go": roControl(controlsC05), "zz_verif_controls_c03.go": roControl(controlsC03 + controlsCancelObserved), "zz_verif_controls_c06.go": roControl(controlsC06), "zz_verif_controls_c09.go": roControl(controlsC09 + controlsC09b)},
 	}
 }
